@@ -148,7 +148,7 @@ SIMPLE = [
     V("x = .unop. a .myop. .unop. b"),
     V("flag = a .lt. b .myop. c .gt. d"),
     # placeholder stress: ten or more top-level bracketed groups / non-trivial strings / exponent literals
-    V("x = f(1) + f(2) + f(3) + f(4) + f(5) + f(6) + f(7) + f(8) + f(9) + f(10) + f(11) + f(12)", one=True),          # 125
+    V("x = f(p + 1) + f(q * 2) + f(r - 3) + g(s1, 4) + f(t / 5) + f(u ** 6) + h(v, w) + f(-7) + f(y + 8) + f(z + 9) + g(aa, 10) + f(bb - 11)", one=True),          # 125
     V("s = 'a 1' // 'a 2' // 'a 3' // 'a 4' // 'a 5' // 'a 6' // 'a 7' // 'a 8' // 'a 9' // 'a 10' // 'a 11'", one=True),
     V("call sub6((a + 1), (a + 2), (a + 3), (a + 4), (a + 5), (a + 6), (a + 7), (a + 8), (a + 9), (a + 10), (a + 11))", one=True),
     V("a(1:n:(k + 1)) = 0", one=True, where=True),
@@ -175,6 +175,9 @@ SIMPLE = [
     V("x = a ** b ** c * d / e - f + g // h == i .and. j .or. k .eqv. l"),
     V("x = -(-(-a))", one=True),
     V("x = (((a)))", one=True),                                                                                          # 150
+    V("x(index('a b c', c)) = len('d  e')", one=True),
+    V("if (s == 'a b') t(idx('x y')) = 'p q'", one=True),
+    V("where (a > f('m n')) a(:) = g('o p')", one=True, where=True),
 ]
 
 # ------------------------------------------------------------------- specification statements
@@ -263,6 +266,9 @@ DECL = [
     V("common /blk2/ z1(3), z2 /blk3/ z3", one=True, bdata=True),
     V("dimension q6(n, m), q7(:), q8(2:n), q9(*), q10(n, 2:*)", mod=False, req="proc"),
     V("character(len=*), parameter :: fmt1 = '(a, \"x\", i3)'", one=True, blk=True),
+    V("integer, public, parameter :: npub = 3", one=True, proc=False),                                                  # 85
+    V("real, private, save :: rprv(2)", one=True, proc=False),
+    V("integer, public :: ipub = 1, jpub", one=True, proc=False),
 ]
 
 USE = [
